@@ -29,16 +29,26 @@ where
 
         // No overlay map: truncated values ride in `pushed` and `stored_len`
         // is clamped to where disk still agrees with the rolled-back state.
-        let (stored_len, pushed) = if change.truncated_values.is_empty() {
-            (change.prev_stored_len, change.prev_pushed)
-        } else {
-            let agree_at = change.truncated_start.min(self.real_stored_len());
-            let mut buf = change.truncated_values;
-            buf.extend(change.prev_pushed);
-            (agree_at, buf)
-        };
-        self.base
-            .apply_rollback(change.prev_stamp, stored_len, pushed);
+        // After an earlier un-truncating rollback the disk may be shorter than
+        // `truncated_start`; the missing prefix is then at the front of `pushed`.
+        let cur_stored_len = self.stored_len().min(self.real_stored_len());
+        let agree_at = change.truncated_start.min(cur_stored_len);
+        let carried = change.truncated_start - agree_at;
+        let mut buf = Vec::with_capacity(
+            carried + change.truncated_values.len() + change.prev_pushed.len(),
+        );
+        if carried > 0 {
+            let current = self.base.pushed();
+            let from = agree_at - self.stored_len().min(agree_at);
+            buf.extend_from_slice(
+                current
+                    .get(from..from + carried)
+                    .ok_or(crate::Error::ExpectVecToHaveIndex)?,
+            );
+        }
+        buf.extend(change.truncated_values);
+        buf.extend(change.prev_pushed);
+        self.base.apply_rollback(change.prev_stamp, agree_at, buf);
 
         Ok(())
     }
